@@ -78,6 +78,10 @@ class MixedUnitaryChannel(raw_types.Gate):
             np.asarray([m[1] for m in self._mixture]), np.asarray([m[1] for m in other._mixture])
         )
 
+    def __hash__(self) -> int:
+        # Equality compares probabilities and unitaries within a tolerance, so only exact attributes may enter the hash.
+        return hash((MixedUnitaryChannel, self._key, self._num_qubits, len(self._mixture)))
+
     def num_qubits(self) -> int:
         return self._num_qubits
 
